@@ -183,10 +183,26 @@ class Ctx:
                 return I.call_value(fv, [pyval(a) for a in args], {k: pyval(v) for k, v in kwargs.items()}, st, None)
 
             return self._run(I, st, thunk)
+        self._check_arity(m, len(args) + 1, kwargs)
         return self._run(I, st, lambda: I.call_function(Closure(m, self_v=objv, cls=m.cls), [pyval(a) for a in args], {k: pyval(v) for k, v in kwargs.items()}, st))
+
+    def _check_arity(self, fi, npos, kwargs):
+        """a spec that calls a (private) function with arguments its current signature does not take is looking at
+        an interface that has changed: the anchor is gone (exit 2), nothing can be concluded from the call"""
+        a = fi.node.args
+        names = [x.arg for x in a.posonlyargs + a.args]
+        if a.vararg is None and npos > len(names):
+            raise AnchorError(f"{fi.qualname} takes {len(names)} positional parameters {names}; the specification passes {npos} (its interface changed)")
+        if a.kwarg is None:
+            allowed = set(names) | {x.arg for x in a.kwonlyargs}
+            bad = [k for k in kwargs if k not in allowed]
+            if bad:
+                raise AnchorError(f"{fi.qualname} has no parameter(s) {bad} (its interface changed)")
 
     def call_func(self, I, st, qual, *args, **kwargs):
         f = self.P.func(qual) if isinstance(qual, str) else qual
+        if not str(getattr(f, "qualname", "")).startswith("ref."):
+            self._check_arity(f, len(args), kwargs)
         return self._run(I, st, lambda: I.call_function(Closure(f), [pyval(a) for a in args], {k: pyval(v) for k, v in kwargs.items()}, st))
 
     def attr(self, st, objv, name):
